@@ -268,7 +268,8 @@ def classes : List String :=
   ["telemetry-only", "cli-or-query-only", "simulation-only", "test-support-only", "startup-configuration",
    "abigen-binding-unreachable", "hasher-pool", "vendored-ethash-pure-computation", "vendored-ethash-progress-logging",
    "vendored-ethash-mining-unreachable", "vendored-ethash-dataset-unreachable", "vendored-ethash-disk-cache-disabled",
-   "vendored-ethash-future-cache", "vendored-ethash-sealer-loop-idle", "sorted-before-use", "order-independent-body", "startup-wiring"]
+   "vendored-ethash-future-cache", "vendored-ethash-sealer-loop-idle", "sorted-before-use", "order-independent-body", "startup-wiring",
+   "constant-table", "deterministic-memo", "vendored-ethash-per-call-instance", "read-only-lookup"]
 
 /-- theorems of `Proofs/C14.lean` that an inventoried site may name as its discharge -/
 def theoremNames : List String :=
